@@ -599,8 +599,11 @@ def run_tables(ck, c):
         res["data"] = None if dat is None else [int(x) for x in dat]
         pieces = [1] * n
         if call["periodic"] == "split":
+            am_o = am_oracle(mc, proj_cl_u(p))
             for f in range(n):
-                pieces[f] = res["c2o"].count(f)
+                # what antimeridian.fix_polygon makes of a crossing face is taken from the run; for a face that
+                # does not cross a wrong count is passed on purpose: the model must not use it
+                pieces[f] = res["c2o"].count(f) if f in am_o else 2
     else:
         res["am"] = [int(x) for x in np.asarray(g._gdf_cached_parameters["antimeridian_face_indices"]).ravel()]
         pieces = [1] * n
@@ -888,6 +891,40 @@ def exact_mesh(rng):
             "exact": True}
 
 
+def pole_fan_mesh(rng):
+    """triangles with one corner stored exactly at a pole (any longitude), none of them crossing the
+    antimeridian, traversed in either direction — in the lon/lat plane some rings run clockwise — next to a
+    few ordinary faces, one of which crosses"""
+    import math
+    sign = rng.choice([1, -1])
+    base = rng.choice([-150, -120, -60, 0, 20])
+    step = rng.choice([25, 35, 40])
+    k = rng.randrange(3, 6)
+    ring = [base + i * step + rng.choice([0, 1, 2]) for i in range(k)]
+    ring = [x for x in ring if -170 < x < 170]
+    lat1, lat2 = sign * rng.choice([75, 68, 60]), sign * rng.choice([35, 20])
+    pole_lon = rng.choice([ring[0], ring[-1], (ring[0] + ring[-1]) // 2, ring[len(ring) // 2]])
+    nodes = [(pole_lon, sign * 90)] + [(x, lat1) for x in ring] + [(x, lat2) for x in ring]
+    faces = []
+    for i in range(len(ring) - 1):
+        f = [0, 1 + i, 2 + i]
+        if rng.random() < 0.5:
+            f.reverse()
+        r = rng.randrange(3)
+        faces.append(f[r:] + f[:r])
+        faces.append([1 + i, 1 + len(ring) + i, 2 + len(ring) + i, 2 + i])
+    # one face across the antimeridian
+    nodes += [(172, lat2), (-171, lat2), (-173, lat1 // 2), (174, lat1 // 2)]
+    b = len(nodes) - 4
+    faces.append([b, b + 1, b + 2, b + 3])
+    rng.shuffle(faces)
+    xyz = [[math.cos(math.radians(la)) * math.cos(math.radians(lo)), math.cos(math.radians(la)) * math.sin(math.radians(lo)),
+            math.sin(math.radians(la))] for lo, la in nodes]
+    jit = [0] + [rng.randrange(-400000, 400000) for _ in nodes[1:]]
+    return {"faces": faces, "lon_u": [lo * U + j for (lo, la), j in zip(nodes, jit)], "lat_u": [la * U for lo, la in nodes],
+            "xyz": xyz}
+
+
 def pick_proj(rng, mc, allow_none=True, only=None):
     for _ in range(30):
         p = rng.choice(only or PROJS)
@@ -937,6 +974,17 @@ def gen_cases(ck):
                                   "call": {"export": export, "level": level, "var": rng.randrange(3), "periodic": per,
                                            "engine": rng.choice(["spatialpandas", "geopandas"]) if export == "gdf" else None,
                                            "proj": p, "cache": True, "override": False}})
+    # pole fans: non-crossing faces with a corner stored at a pole, both traversal directions, under split
+    for rep in range(2 if quick else 40):
+        mc = pole_fan_mesh(rng)
+        if not frame_ok(mc, 0):
+            continue
+        for export, level, engine in (("poly", "grid", None), ("poly", "da", None), ("gdf", "da", rng.choice(["spatialpandas", "geopandas"])),
+                                      ("line", "grid", None)):
+            for per in (("split",) if quick and export != "poly" else ("split", "exclude", "ignore")):
+                cases.append({"kind": "single", "mesh": mc,
+                              "call": {"export": export, "level": level, "var": rng.randrange(3), "periodic": per,
+                                       "engine": engine, "proj": None, "cache": True, "override": False}})
     # every (export, level, periodic, engine, projection class) at least once per tier
     combos = []
     for export in ("gdf", "poly", "line"):
